@@ -283,10 +283,17 @@ class FormulaTransformer(m.MatcherDecoratableTransformer):
         elif self.attr_stack and self.attr_stack[-1] == original_node:
             # Do nothing if node is an attribute of another name
             return updated_node
+        elif self._is_keyword(original_node):
+            # Do nothing if node is the keyword of a keyword argument
+            return updated_node
         elif self.should_replace(original_node):
             return cst.Attribute(value=cst.Name('self'), attr=updated_node)
         else:
             return updated_node
+
+    def _is_keyword(self, node: "Name"):
+        parent = self.get_metadata(ParentNodeProvider, node)
+        return isinstance(parent, cst.Arg) and parent.keyword is node
 
     def leave_Subscript(
         self, original_node: "Subscript", updated_node: "Subscript"
